@@ -9,8 +9,10 @@ LEVEL = "fault_enumeration"
 TECHNIQUE = "deterministic simulation: seeded sweep of kill / I/O-fault points over the recorded libc operation sequence of the real binary, post-state oracle against a fault-free twin"
 LEVEL_TEXT = ("For sampled projects every operation boundary of the edit run (thorough) or a biased sample of them (quick) is "
               "hit with a process kill (before/after/inside the call) and with each legal errno; after each run every source file "
-              "must be byte-identical to its original or to the twin's complete update. Sampled worlds, enumerated fault points: "
-              "evidence, not proof.")
+              "must be byte-identical to its original or to the twin's complete update. Also: two-fault plans (I/O error then kill; "
+              "TMPDIR on another filesystem = every rename fails with EXDEV, then a second event) and 'aftermath' histories "
+              "(abnormal run, developer edits, fault-free run on the same tree and TMPDIR - what the first run left behind must not "
+              "leak into the files). Sampled worlds, enumerated fault points: evidence, not proof.")
 LEVEL_NOTE = ("Trusted: the LD_PRELOAD seam sees every filesystem call of the dynamically linked binary; tmpfs keeps what the "
               "kernel accepted at kill time; the twin run defines 'complete updated'. Power loss / un-synced data are not modelled.")
 RULE = ("case = one generated project (1-4 source files in four size classes, 1-5 insertions per file, both styles); "
